@@ -2,6 +2,7 @@ import Rbp.Model.VarInt
 import Rbp.Proofs.Record
 import Rbp.Proofs.Layout
 import Rbp.Proofs.BlkName
+import Rbp.Proofs.Consulted
 /-!
 # C03 — a block is read from the file and offset its index record names, wherever it is
 -/
@@ -34,6 +35,37 @@ theorem readAt_block (coin : Coin) (size : Nat) (hs : size < 256 ^ 4) (b : W.Blo
 theorem layout_independent_read (coin : Coin) (key : Option W.Bytes) (f g : BlkFile) (off : Nat)
     (h : bytesFrom f (off - 4) = bytesFrom g (off - 4)) : readAt coin key f off = readAt coin key g off :=
   readAt_depends_on_suffix coin key f g off h
+
+/-- the four "magic" bytes in front of a block's length prefix are never consulted: a file holding `pre ++ rest` and one holding
+    `pre' ++ rest` (`pre'` as long as `pre`: another coin's magic, zeros, noise, other blocks) read the same at offset `|pre| + 4` -/
+theorem magic_never_read (coin : Coin) (key : Option W.Bytes) (name : String) (size : Nat) (pre pre' rest : W.Bytes)
+    (h : pre.length = pre'.length) :
+    readAt coin key ⟨name, size, [⟨0, pre ++ rest⟩]⟩ (pre.length + 4) = readAt coin key ⟨name, size, [⟨0, pre' ++ rest⟩]⟩ (pre.length + 4) := by
+  apply layout_independent_read
+  simp only [Nat.add_sub_cancel]
+  unfold bytesFrom
+  simp only []
+  split
+  · rfl
+  · by_cases hr : 0 < rest.length
+    · simp [List.find?, h, hr]
+    · have : rest = [] := by cases rest <;> simp_all
+      subst this
+      simp [List.find?, h]
+
+/-- **a run consults the index values only through the decoded record.**  Replace every value by any other that decodes to the same
+    record (hash, prev-hash, height, status, file, offset): the run is the same, observable for observable. -/
+theorem index_values_consulted_only_through_decoded_fields (o : Opts) (key : Option W.Bytes) (fs : List BlkFile)
+    (f : W.Bytes → W.Bytes → W.Bytes) (hf : ∀ k v, decodeRec k (f k v) = decodeRec k v) (kvs : List (W.Bytes × W.Bytes)) :
+    run o key (kvs.map fun p => (p.1, f p.1 p.2)) fs = run o key kvs fs :=
+  run_map o key fs f hf kvs
+
+/-- in particular the version of the node that wrote a record and the record's transaction count are not consulted: re-encoding a
+    record with any other (u64) values for the two decodes to the same record -/
+theorem node_version_and_tx_count_not_consulted (hash : W.Bytes) (hh : hash.length = 32) (r : IndexRec) (hk : r.ok)
+    (c n : Nat) (hc : c < 2^64) (hn : n < 2^64) :
+    decodeRec (0x62 :: hash) ({ r with client := c, ntx := n } : IndexRec).enc = decodeRec (0x62 :: hash) r.enc :=
+  decodeRec_client_ntx hash hh r hk c n hc hn
 
 /-- **whole run, same index.**  Two data directories with the same index key/value pairs in which, for every record of the
     index, "the blk file with the record's number, read at the record's offset" yields the same result, produce identical
